@@ -188,6 +188,10 @@ func runC03(ctx *Ctx) {
 			c03Contract(ctx, i, drv, rng)
 			return
 		}
+		if i%10 == 3 {
+			c03Legacy(ctx, i, drv, rng)
+			return
+		}
 		// the per-request cap on returned hosts is about peer requests only: a cut-off must reach
 		// every connected host the client peers with, however many that is
 		cfg := worldCfg{Drv: drv, Price: "1", IntervalNs: 1, Settle: true, MaxHosts: rng.Intn(3)}
@@ -251,6 +255,9 @@ func runC07(ctx *Ctx) {
 	for c := 0; c < ctx.N(6, 60); c++ {
 		if ctx.Want(900000 + c) {
 			contractCase(ctx, 900000+c, ctx.Sub(900000+c), "failed-settlement", "c07-")
+		}
+		if ctx.Want(900100 + c) {
+			contractCase(ctx, 900100+c, ctx.Sub(900100+c), "restart-before-mining", "c07-")
 		}
 	}
 	n := ctx.N(200, 5000)
